@@ -268,6 +268,23 @@ fn run_conversions<E: Elem>(c: usize, r: usize, ctx: &mut Ctx) {
                     t[(c - 1, r - 1)] = E::make(labels[n - 1]);
                 }
                 drop(cl);
+                // Clone::clone_from into arrays of other shapes (with and without spare capacity)
+                for (oc, or) in [(0usize, 0usize), (r, c), (c + 1, r.max(1)), (1, 1), (c, r)] {
+                    let mut x: TooDee<E> = TooDee::from_vec(oc, or, (0..oc * or).map(|i| E::make(900 + i as u32)).collect());
+                    if spare {
+                        x.reserve(7);
+                    }
+                    x.clone_from(&t);
+                    if x.size() != t.size() || lab(x.data()) != lab(t.data()) || x != t {
+                        cs.fail("conv:clone_from", format!("clone_from into a {}x{} array gives size {:?} cells {:?}, expected size {:?} cells {:?}", oc, or, x.size(), lab(x.data()), t.size(), lab(t.data())));
+                    }
+                    if n > 0 {
+                        x[(0, 0)] = E::make(1234);
+                        if lab(t.data()) != labels {
+                            cs.fail("conv:clone-independent", "writing to the clone_from target changed the source".into());
+                        }
+                    }
+                }
                 let v: Vec<E> = build(spare).into();
                 if lab(&v) != labels {
                     cs.fail("conv:vec", format!("Vec::from gives {:?}", lab(&v)));
@@ -465,7 +482,7 @@ impl Prop for C20P {
     fn rule(&self) -> String {
         "dimension pairs over {0..=N, 2^31, 2^32, 2^32+1, 2^63, usize::MAX/2+1, usize::MAX-1, usize::MAX}^2: new and init (element types u32, Tracked, zero-sized): exactly one zero => panic, overflow => panic, (0,0) => empty, small product => every cell is the default / the given value (huge non-overflowing products are skipped for sized types and executed for () up to 2^20 x 3); \
          from_vec (exact / spare capacity) and from_box for all pairs x every buffer length 0..=N^2+1: accepted iff zero rule, no overflow and c*r == len, then the buffer's cells in row-major order; TooDeeView::new / TooDeeViewMut::new: accepted iff zero rule, no overflow, c*r <= len, cells by address; default / with_capacity => (0,0). \
-         Conversions for every shape: Vec::from, Box::from, into_iter() with every (front, back) split and the rest reversed, AsRef<[T]>, AsRef<Vec<T>>, AsMut, clone() equal and independent, TooDee::from(view | view_mut | view-from-view_mut) for every window; drop ledger balanced. \
+         Conversions for every shape: Vec::from, Box::from, into_iter() with every (front, back) split and the rest reversed, AsRef<[T]>, AsRef<Vec<T>>, AsMut, clone() and clone_from() equal and independent, TooDee::from(view | view_mut | view-from-view_mut) for every window; drop ledger balanced. \
          == / Hash: all arrays with <= 4 cells over {0,1} (1x4, 2x2, 4x1 share a length), all pairs: equal iff same dimensions and cells, equal => same DefaultHasher digest also across capacities. \
          A case is one constructor call / conversion bundle / comparison row; non-trivial = accepted; distinct by arguments."
             .into()
